@@ -763,12 +763,26 @@ def build(spec):
     if ctor == "sl2_iso":
         A = np.array(spec["mats"], dtype=float).reshape(tuple(shape) + (2, 2))
         arg = A.tolist() if spec["as_list"] else A.copy()
-        T = Isometry.from_sl2(arg) if spec["alias"] else hyperbolic.sl2_iso(arg)
         dets = np.linalg.det(A)
+        if tuple(shape) == () and (spec["as_list"] or (np.any(dets < 0) and spec["alias"])):
+            # the same image reached through a representation: compose with the wrapped
+            # homomorphism, wrap the result as a hyperbolic representation, ask for the word
+            from geometry_tools import representation as _R, lie as _lie
+            r0 = _R.Representation()
+            r0["a"] = A.copy()
+            hr = hyperbolic.HyperbolicRepresentation(r0.compose(_lie.hom.sl2_to_so21()))
+            T = hr["a"]
+            lab.append("via=compose(lie.hom.sl2_to_so21)")
+        else:
+            T = Isometry.from_sl2(arg) if spec["alias"] else hyperbolic.sl2_iso(arg)
         return Built(T, 2, shape, ctor, labels=lab + (
             ["det=-1"] if np.any(dets < 0) else []) + (["list-arg"] if spec["as_list"] else []))
     if ctor == "reflection_across":
         lab.append("via=" + spec["via"])
+        # (the caller has its own copy of the Minkowski form and has been editing it)
+        mine = hyperbolic.minkowski(n + 1)
+        mine[0, 0] = 1.0
+        mine[-1, -1] = -3.0
         if spec["via"] in ("hyperplane", "hyperplane_rows"):
             V = _normal_array(spec["normals"], n, shape)
             Hp = Hyperplane(V.copy())
